@@ -728,9 +728,26 @@ Definition join_segments (pk : pc_kind) (segs : list value) : result value :=
     dec_str_prim k (concat parts)
   end.
 
+(** the [while True] loop of decode_constructed_contents; [decseg] decodes one
+    segment, [loop] bounds the number of segments (each consumes at least two
+    octets) *)
+Fixpoint seg_loop (decseg : nat -> result (dres * nat)) (data : list Z) (endo : option nat)
+         (loop : nat) (o : nat) : result (list value * nat) :=
+  match loop with
+  | O => Err EFuel
+  | S lp =>
+    let* (fin, o1) := is_end_of_data data o endo in
+    if fin then Ok ([], o1)
+    else
+      let* (d, o2) := decseg o1 in
+      match d with
+      | DMis => Err EDecode
+      | DVal sv => let* (rest, o3) := seg_loop decseg data endo lp o2 in Ok (sv :: rest, o3)
+      end
+  end.
+
 (** PrimitiveOrConstructedType.decode / decode_constructed_contents.
-    [seg_fuel] bounds the nesting of constructed segments, [loop] the number
-    of segments (each consumes at least two octets). *)
+    [seg_fuel] bounds the nesting of constructed segments. *)
 Fixpoint pc_decode (seg_fuel : nat) (pk : pc_kind) (tagb : list Z) (data : list Z) (off : nat)
   : result (dres * nat) :=
   match seg_fuel with
@@ -745,20 +762,7 @@ Fixpoint pc_decode (seg_fuel : nat) (pk : pc_kind) (tagb : list Z) (data : list 
         let endo := end_of off' len in
         let segk := if pc_segment_is_bits pk then PcBits else PcOctets in
         let segtag := mk_tag None (if pc_segment_is_bits pk then 3 else 4) false in
-        let fix segs (loop : nat) (o : nat) : result (list value * nat) :=
-          match loop with
-          | O => Err EFuel
-          | S lp =>
-            let* (fin, o1) := is_end_of_data data o endo in
-            if fin then Ok ([], o1)
-            else
-              let* (d, o2) := pc_decode sf segk segtag data o1 in
-              match d with
-              | DMis => Err EDecode
-              | DVal sv => let* (rest, o3) := segs lp o2 in Ok (sv :: rest, o3)
-              end
-          end in
-        let* (svs, en) := segs (S (length data)) off' in
+        let* (svs, en) := seg_loop (pc_decode sf segk segtag data) data endo (S (length data)) off' in
         let* v := join_segments pk svs in
         Ok (DVal v, en) in
     if zlist_eqb td tagb then go true
